@@ -224,6 +224,48 @@ def run_c05(ctx):
                 summary="%d commitments, %d Iterate() steps, %d sessions" % (r["cases"], r["iterate_steps"], sess_tap), infra_error=vac)
 
 
+# ------------------------------------------------------------------------------------------- C02 / C11
+def run_c02(ctx):
+    r = run_engine(ctx, "mc_sig", ["--mode", "c02"])
+    if "infra_error" in r:
+        return _infra("model_checking", r)
+    o = r["outcomes"]
+    cov = {
+        "states": r["sessions"], "transitions": r["steps"], "traces_validated_against_impl": r["sessions"],
+        "samples": r["samples"] or ["(none)"], "exhaustive": True,
+        "bounds": ["ECDSA (legacy + BIP143), explicit mode mirroring `--tx=<amounts>:<hex> --txin=<hex> --select=k <script> <stack>`: all 256 hash-type bytes x transaction shapes (nin,nout) x every input index x {BASE, WITNESS_V0} x {NONE, STANDARD}; 20 script templates (CHECKSIG(VERIFY), code separators executed/unexecuted/multiple, two digests in one script, 1-of-1..2-of-3 multisig with every order / missing / extra signature, FindAndDelete) x 10 hash types x 4 flag sets x 3 shapes; 14 signature/key encoding classes and 7 multisig encoding classes x all 2^8 subsets of {DERSIG, LOW_S, STRICTENC, NULLFAIL, NULLDUMMY, WITNESS_PUBKEYTYPE, CONST_SCRIPTCODE, DISCOURAGE_UPGRADABLE_PUBKEYTYPE}; every single-bit flip of signature, public key and serialised transaction",
+                   "Schnorr (BIP341/342), auto mode through configure_tx_txin: all 256 hash-type bytes + 64-byte form, key path and script path, annex present/absent, 1..3 outputs; 13 tapscript templates (code-separator positions incl. unexecuted branch and after a long push, two digests, CHECKSIGADD, unknown key type); validation-weight budget landing at -50/-1/0/+49; every single-bit flip of signature and serialised transaction"],
+        "signature_checks_accepting": r["signature_checks_accepting"], "signature_checks_rejecting": r["signature_checks_rejecting"],
+        "outcome_histogram": o, "distinct_outcomes": len(o),
+    }
+    need = {"OK", "SIG_DER", "SIG_HIGH_S", "SIG_HASHTYPE", "PUBKEYTYPE", "WITNESS_PUBKEYTYPE", "SIG_NULLFAIL", "SIG_NULLDUMMY", "SIG_FINDANDDELETE", "invalid"}
+    missing = sorted(need - set(o.keys()))
+    return dict(level="model_checking", coverage=cov, violations=r["violations"],
+                assumptions=["signer and verifier: reftx (legacy/BIP143/BIP341 digests) + refec (OpenSSL EC arithmetic), self-tested on BIP340 vectors and six real-chain spends",
+                             "taproot is restricted to single-input transactions (the tool receives one funding transaction); on the key path only accept/reject is compared (the tool has no error sink there)",
+                             "transaction bit flips that change the structure, the spent outpoint's txid, or make the outpoint index exceed the funding outputs are excluded (C13 / C15)"],
+                summary="%d sessions, %d steps" % (r["sessions"], r["steps"]),
+                infra_error=("vacuous: outcomes never observed: %s" % missing) if missing else None)
+
+
+def run_c11(ctx):
+    r = run_engine(ctx, "mc_sig", ["--mode", "c11"])
+    if "infra_error" in r:
+        return _infra("model_checking", r)
+    cov = {
+        "states": r["sessions"], "transitions": r["steps"], "traces_validated_against_impl": r["sessions"],
+        "samples": ["--pretend-valid=0xaa01:<key1>,0xaa01:<key2> ; script <key1> OP_CHECKSIG ; stack aa01", "--pretend-valid=0xbb02bb:<key2> ; script 1 <key3> <key2> 2 OP_CHECKMULTISIG ; stack '' bb02bb"], "exhaustive": True,
+        "bounds": ["every ordered list of 1..%d pairs over {s1,s2} x {p1,p2} (duplicates, one signature for two keys, one key with two signatures) x {BASE, WITNESS_V0} x with/without a transaction x {NONE, STANDARD}: each listed pair in CHECKSIG, CHECKSIGVERIFY, 1-of-1 and 1-of-2 multisig; an unlisted signature for each mocked key; non-interference on 4 templates signed by unlisted keys and a listed signature offered to an unlisted key; 10 malformed / edge-case list spellings" % (2 if ctx.tier == "quick" else 3)],
+        "outcome_histogram": r["outcomes"], "signature_checks_accepting": r["signature_checks_accepting"], "signature_checks_rejecting": r["signature_checks_rejecting"],
+    }
+    return dict(level="model_checking", coverage=cov, violations=r["violations"],
+                assumptions=["model: a check of (S, P) succeeds unconditionally iff the pair is listed; everything else runs as without the option (reference interpreter with real digests)",
+                             "malformed = an item without a colon or with more than one colon; the empty list, a trailing comma and empty signature/key parts are not called malformed by the property and are only counted",
+                             "tapscript cannot be selected in explicit mode from the command line; CHECKSIGADD with mock pairs is therefore not covered"],
+                summary="%d sessions" % r["sessions"],
+                infra_error=None if r["signature_checks_accepting"] > 100 and r["signature_checks_rejecting"] > 100 else "vacuous exploration")
+
+
 def _lazy(modname, fn):
     def f(ctx, *a):
         import importlib
@@ -232,6 +274,10 @@ def _lazy(modname, fn):
 
 
 PROPS = {
+    "C02": dict(targets=["mc_sig"], run=run_c02, replay=replay_engine("mc_sig")),
+    "C11": dict(targets=["mc_sig"], run=run_c11, replay=replay_engine("mc_sig")),
+    "C07": dict(targets=["btcc", "mc_refcli"], run=_lazy("c07_btcc", "run"), replay=_lazy("c07_btcc", "replay")),
+    "C14": dict(targets=["btcc", "btcdeb", "btcdeb_tty", "mc_refcli"], run=_lazy("c14_tf", "run"), replay=_lazy("c14_tf", "replay")),
     "C06": dict(targets=["tap", "btcdeb"], run=_lazy("c06_tap", "run"), replay=_lazy("c06_tap", "replay")),
     "C03": dict(targets=["mc_spend"], run=run_c03, replay=replay_engine("mc_spend")),
     "C05": dict(targets=["mc_spend"], run=run_c05, replay=replay_engine("mc_spend")),
